@@ -6,7 +6,7 @@
 (* real compiler (polreplay).  Line 1 is the header with the events.       *)
 (***************************************************************************)
 EXTENDS CompileScopes, Json
-CONSTANTS OutFile, Stride, Offset, Le
+CONSTANTS OutFile, Stride, Offset, Le, WithModel
 
 RECURSIVE Pols(_)
 Pols(n) == IF n = 1 THEN {<<g>> : g \in GroupSet(Scope)}
@@ -19,7 +19,7 @@ Picked == SelectSeq([i \in 1..Len(All) |-> i], LAMBDA i : i % Stride = Offset)
 Events == EventSeq(Scope)
 OutInst(x) == [k |-> x.k, c |-> x.c, v |-> x.v, st |-> x.st, sf |-> x.sf]
 Case(p) ==
-  LET c == Compile(p, Le) IN
+  LET c == IF WithModel THEN Compile(p, Le) ELSE [err |-> "skipped", insts |-> <<>>] IN
   [pol |-> p,
    reject |-> HasDefect(p),
    ideal |-> IF HasDefect(p) THEN <<>> ELSE [i \in 1..Len(Events) |-> Decide(p, Events[i])],
@@ -28,6 +28,14 @@ Case(p) ==
 Header == [scope |-> Scope, w |-> W, x32bit |-> X32Bit, nsys |-> NSys, events |-> Events,
            total |-> Len(All)]
 Out == <<Header>> \o [n \in 1..Len(Picked) |-> Case(All[Picked[n]])]
-ASSUME ndJsonSerialize(OutFile, Out)
-ASSUME PrintT(<<"exported", Len(Picked), "of", Len(All)>>)
+\* The export runs as the single step of a one-variable behaviour, so that it
+\* is evaluated by a worker thread (whose stack honours -Xss; real-scale
+\* policies recurse once per instruction).
+VARIABLE done
+Init == done = FALSE
+Next == /\ ~done
+        /\ ndJsonSerialize(OutFile, Out)
+        /\ PrintT(<<"exported", Len(Picked), "of", Len(All)>>)
+        /\ done' = TRUE
+Spec == Init /\ [][Next]_done
 =============================================================================
